@@ -10,9 +10,9 @@ from collections import namedtuple
 from ural.patterns import DOMAIN_TEMPLATE, DOMAIN_LABELS_PREFIX
 from ural.utils import SplitResult, safe_urlsplit, pathsplit
 
-TWITTER_DOMAINS_RE = re.compile(r"(?:^|\.)(?:twitter|x)\.com$", re.I)
+TWITTER_DOMAINS_RE = re.compile(r"(?:^|\.)(?:twitter|x)\.com$", re.I | getattr(re, "A", 0))
 TWITTER_URL_RE = re.compile(
-    DOMAIN_TEMPLATE % (DOMAIN_LABELS_PREFIX + r"(?:twitter|x)\.com"), re.I
+    DOMAIN_TEMPLATE % (DOMAIN_LABELS_PREFIX + r"(?:twitter|x)\.com"), re.I | getattr(re, "A", 0)
 )
 TWITTER_FRAGMENT_ROUTING_RE = re.compile(r"^!/?")
 TWITTER_SCREEN_NAME_BLACKLIST = {
